@@ -985,6 +985,84 @@ func c19StalledPeerKeepsPinging() []int64 {
 	return []int64{1, 0}
 }
 
+// scenario 43 (C13, C11): connections that die right after the handshake (TCP reset), 24 peers x 200: for every accepted
+// connection the new-client callback comes before the disconnected callback, and both come exactly once.
+func c19DiesAtOnce() []int64 {
+	srv := ws.NewServer()
+	srv.AddSupportedSubprotocol("ocpp1.6")
+	srv.SetMessageHandler(func(c ws.Channel, data []byte) error { return nil })
+	var mu sync.Mutex
+	state := map[ws.Channel]int{} // bit 0: announced, bit 1: disconnected before it was announced
+	news, discs, early, twice := 0, 0, 0, 0
+	srv.SetNewClientHandler(func(c ws.Channel) {
+		mu.Lock()
+		news++
+		if state[c]&1 != 0 {
+			twice++
+		}
+		if state[c]&2 != 0 {
+			early++
+		}
+		state[c] |= 1
+		mu.Unlock()
+	})
+	srv.SetDisconnectedClientHandler(func(c ws.Channel) {
+		mu.Lock()
+		discs++
+		if state[c]&1 == 0 {
+			state[c] |= 2
+		}
+		if state[c]&4 != 0 {
+			twice++
+		}
+		state[c] |= 4
+		mu.Unlock()
+	})
+	go srv.Start(0, "/{ws}")
+	port := c19WaitAddr(srv)
+	if port == 0 {
+		return []int64{-3}
+	}
+	defer srv.Stop()
+	var wg sync.WaitGroup
+	var accepted int64
+	for w := 0; w < 24; w++ {
+		wg.Add(1)
+		go func(w int) {
+			defer wg.Done()
+			for i := 0; i < 200; i++ {
+				nc, err := net.DialTimeout("tcp", fmt.Sprintf("127.0.0.1:%d", port), 2*time.Second)
+				if err != nil {
+					continue
+				}
+				d := websocket.Dialer{NetDial: func(string, string) (net.Conn, error) { return nc, nil }, HandshakeTimeout: 2 * time.Second, Subprotocols: []string{"ocpp1.6"}}
+				c, _, err := d.Dial(fmt.Sprintf("ws://127.0.0.1:%d/w%di%d", port, w, i), nil)
+				if err != nil {
+					nc.Close()
+					continue
+				}
+				atomic.AddInt64(&accepted, 1)
+				if tc, ok := nc.(*net.TCPConn); ok {
+					_ = tc.SetLinger(0)
+				}
+				c.Close()
+			}
+		}(w)
+	}
+	if !within(60*time.Second, wg.Wait) {
+		return []int64{-8}
+	}
+	n := int(atomic.LoadInt64(&accepted))
+	waitFor(5*time.Second, func() bool { mu.Lock(); defer mu.Unlock(); return news == n && discs == n })
+	time.Sleep(50 * time.Millisecond)
+	mu.Lock()
+	defer mu.Unlock()
+	if early == 0 && twice == 0 && news == n && discs == n && n > 0 {
+		return []int64{1, int64(n)}
+	}
+	return []int64{0, int64(early), int64(twice), int64(news), int64(discs), int64(n)}
+}
+
 func c19Eval(in []int64) []int64 {
 	if len(in) < 3 {
 		return []int64{-1}
@@ -1004,7 +1082,7 @@ func c19Eval(in []int64) []int64 {
 		return c19SendStop(in[1])
 	case 6:
 		return c19SendDisconnect(in[1])
-	case 7, 8, 9, 10, 11, 12, 13, 14, 16, 19, 20, 21, 22, 23, 24, 25, 26, 27, 28, 29, 30, 31, 32, 33, 34, 35, 36, 37, 38:
+	case 7, 8, 9, 10, 11, 12, 13, 14, 16, 19, 20, 21, 22, 23, 24, 25, 26, 27, 28, 29, 30, 31, 32, 33, 34, 35, 36, 37, 38, 44, 45:
 		return gatedEval(in)
 	case 15:
 		return c19StopBusyReconnect()
@@ -1018,6 +1096,8 @@ func c19Eval(in []int64) []int64 {
 		return c19ClientRestartRetries()
 	case 42:
 		return c19StalledPeerKeepsPinging()
+	case 43:
+		return c19DiesAtOnce()
 	}
 	return []int64{-1}
 }
